@@ -47,6 +47,11 @@ P = {
         "eval_module": "Run.Eval_C08", "check_term": "ucheck " + FX,
         "n_quick": 1500, "n_thorough": 30000,
         "findings": {},
+        # white-box unit stream on the unexported helper `unescape` of rule_impl.go; the same decoding is exercised end to end by
+        # the stream `requests` (captures after Execute).  When the helper itself is REMOVED from the package (harness/tools/rebind
+        # finds no counterpart, e.g. seeded/harmless/C08-r8 splits it into two one-argument functions) the stream is skipped with
+        # a NOTE instead of raising an alarm, provided `requests` ran green (lib/runner.py, docs/notes/REBIND.md)
+        "supplementary": ["requests"],
     }, {
         "name": "gourl", "pkg": "./internal/rules/config", "test": "TestVerifGoUrl",
         "overlay": {"internal/rules/config/zz_verif_gourl_test.go": "gourl/gourl_test.go"},
